@@ -142,7 +142,9 @@ class PullSetupOpsOutOfLoops(RewritePattern):
                     safe_values.add(key)
         # remove all unsafe vals form potentially safe values
         # also pick a deterministic, fixed order for the rest of the rewrite
-        loop_invariant_options = tuple(sorted(safe_values - unsafe_vals))
+        # only the fields this first setup writes itself: a field that is first written by a later setup of the
+        # body still holds its old value when the launches in front of that setup run in the first iteration
+        loop_invariant_options = tuple(sorted((safe_values - unsafe_vals) & {name.data for name in op.param_names}))
 
         # nothing to do if everything is loop dependent
         if not loop_invariant_options:
